@@ -87,9 +87,9 @@ m = {
     'setup_cmd': './setup.sh',
     'hooks': {
         'guard': 'john_yu_sm9_core_verif',
-        'enable': 'executor/.cargo/config.toml sets rustflags = ["--cfg", "john_yu_sm9_core_verif"]; sanitizer builds pass the same --cfg through RUSTFLAGS',
+        'enable': 'executor/.cargo/config.toml sets rustflags = ["--cfg", "john_yu_sm9_core_verif", "--cfg", "john_yu_sm9_core_verif_lines"] (the second guard is optional: vlib/runner.py falls back to the first alone if the line-function wrappers no longer compile); sanitizer builds pass the same --cfg flags through RUSTFLAGS',
         'baseline_off_cmd': 'cd /repo && cargo test --workspace --no-fail-fast --offline',
-        'source_commits': ['55aa66b', '6be3d24'],
+        'source_commits': ['55aa66b', '6be3d24', '88b3421'],
         'add_only': True,
     },
     'engines': [{
